@@ -87,6 +87,18 @@ class OrderStore:
         self.inf = {}   # index -> +1 / -1 for the literals +inf / -inf
         self.pending = []
 
+    def clone(self):
+        o = OrderStore()
+        o.nodes = list(self.nodes)
+        o.idx = dict(self.idx)
+        o.rel = dict(self.rel)
+        o.nan = dict(self.nan)
+        o.adj = {k: set(v) for k, v in self.adj.items()}
+        o.lits = list(self.lits)
+        o.inf = dict(self.inf)
+        o.pending = list(self.pending)
+        return o
+
     # ---- registration
     def _reg(self, n):
         i = self.idx.get(n)
